@@ -62,6 +62,11 @@ def probe_text(p, anyacct, more=False):
         if more:
             for pre, lay in (("2024-03-01 * ", "header-status"), ("2024-03-01 (123) ", "header-code"), ("2024-03-01=2024-03-02 ! (x) ", "header-date2-status-code")):
                 out.append((HEAD + pre + q, 2, u(pre) + u(q), lay))
+        if q == "":
+            # the cursor still inside (or right after) the date: whatever is offered there may only be INSERTED at the cursor
+            # (the fragment is empty); whether anything is offered is left open
+            out.append((HEAD + "2024-03", 2, 7, "header-in-date"))
+            out.append((HEAD + "2024-03-01", 2, 10, "header-in-date-end"))
         return out
     if k == "commodity":
         pre = "    " + anyacct + "  10 "
@@ -128,7 +133,7 @@ def evaluate(c, ws, metas, results):
                 divs.append((sig, "%s [%s]: offered %s; names that %s: %s" % (where, cdesc, bad[:5], "contain the fragment as a subsequence" if conf["fuzzyMatching"] else "start with the fragment", sorted(allowed)[:8])))
             if len(labs) > conf["maxResults"]:
                 divs.append(("over-limit", "%s [%s]: %d items" % (where, cdesc, len(labs))))
-            if len(labs) < conf["maxResults"]:
+            if len(labs) < conf["maxResults"] and not m["layout"].startswith("header-in-date"):
                 missing = [n for n in p["prefix"] if n not in labs]
                 if missing:
                     divs.append(("incomplete:" + p["ctx"], "%s [%s]: %d items offered %s, names starting with the fragment not offered: %s" % (where, cdesc, len(labs), labs[:6], missing[:6])))
